@@ -85,4 +85,12 @@ theorem slice_sites_padded :
     function of its inputs" independent of call history and of concurrent callers. -/
 theorem no_package_state_writes : C16Sites.stateWrites = [] := by decide
 
+/-- The only configuration / fork-schedule reads on the VRF path are the two in `validateProve`
+    (`Proposal025Block + GetRewardBlocks()`, the model's `threshold` input). A new `IsProposalNNN()` /
+    config branch on the path breaks this obligation (and must then enter the model as an input). -/
+theorem config_reads_pinned :
+    C16Sites.configReads =
+      ["vrf_with_stake.go:validateProve:common.LocalChainConfig.Proposal025Block",
+       "vrf_with_stake.go:validateProve:common.GetRewardBlocks"] := by decide
+
 end Rangers.Props.C16Gen
